@@ -52,6 +52,10 @@ func main() {
 		if L == leases[1] {
 			jobs = append(jobs, job(&lockh.LeaseScenario{Kind: "kept", Lease: L, Holds: 4.5, RenewFaults: true, ManyFaults: true}, vsched.Config{P: 0, F: 4, Preempt: fine, MaxSteps: 60000}))
 		}
+		// a slow storage: every renewal takes a sixth of a lease (request or reply side); it answers every time, the lease is kept
+		for _, side := range []string{"request", "reply"} {
+			jobs = append(jobs, job(&lockh.LeaseScenario{Kind: "kept", Lease: L, Holds: 2.5, SlowCas: side}, vsched.Config{P: pk, Preempt: fine, MaxSteps: 60000}))
+		}
 		// the context the lock was acquired with ends during the tenure (a storage that honours contexts): the lease is kept all the same
 		jobs = append(jobs, job(&lockh.LeaseScenario{Kind: "kept", Lease: L, Holds: 2.5, CtxEnds: true}, vsched.Config{P: pk, Preempt: fine, MaxSteps: 60000}))
 		for _, h := range []float64{0.3, 0.8, 1.6} {
